@@ -101,6 +101,19 @@ def main():
             fails += 1
             lab = 'construction.base_constructor_chain_runs_first' if sorted(got) == sorted(want) else 'construction.field_initialisers_once_before_the_body'
             print('FAIL label=%s program=%s detail=explicit super=%s: printed %s, expected %s' % (lab, json.dumps(src), exp_super, got, want))
+    # ---- static fields: one slot per DECLARING class, whichever subclass / object it is reached through
+    st = [('class Counter { public static int made = 0; public constructor() -> Counter { made = made + 1; return this; } }\n'
+           'class Special extends Counter { public static int bonus = 100; public constructor() -> Special { super(); made = made + 10; bonus = bonus + 1; return this; } }\n'
+           'function main() -> void { Counter a = new Counter(); Special b = new Special(); echo(Counter.made); echo(Special.made); echo(Special.bonus); Special.made = Special.made + 5; echo(Counter.made); echo(b.made); echo(Special.bonus); }\n',
+           ['12', '12', '101', '17', '17', '101'], 'static_field.owner_is_the_nearest_declaring_class'),
+          ('class P { public static int s = 1; public constructor() -> P = default; }\nclass Q extends P { public constructor() -> Q { super(); return this; } public function bump() -> void { s = s + 1; } }\n'
+           'function main() -> void { Q q = new Q(); q.bump(); q.bump(); echo(P.s); echo(Q.s); }\n', ['3', '3'], 'static_field.owner_is_the_nearest_declaring_class')]
+    for src, want, lab in st:
+        rc, out = run(bloch, src); n += 1
+        got = [l.strip() for l in out.strip().split('\n') if l.strip()]
+        if rc != 0 or got != want:
+            fails += 1
+            print('FAIL label=%s program=%s detail=printed %s, expected %s' % (lab, json.dumps(src), got, want))
     # ---- explicit super(args): the applicable base constructor of lowest conversion cost runs, whatever the order of declaration
 
     CT = {'Dog': 'public constructor(Dog d) -> Base { echo("Base(Dog)"); return this; }', 'Animal': 'public constructor(Animal a) -> Base { echo("Base(Animal)"); return this; }',
